@@ -265,6 +265,36 @@ func c12Families(tier string) []explore.Family {
 			}
 		}})
 	}
+	// every legal identifier of <=3 symbols over {a, b, _, 1, -, ?} as assign and capture target: the variable that is
+	// read back is the one that was written, and a neighbouring name is not touched
+	idAlpha := []string{"a", "b", "_", "1", "-", "?"}
+	idRe := regexp.MustCompile(`^[a-z_][a-z0-9_-]*\??$`)
+	fams = append(fams, explore.Family{Name: "identifier-names", Count: seqCount(len(idAlpha), 3), Run: func(i int64, r *explore.Rec) {
+		name := joinSyms(idAlpha, seqAt(len(idAlpha), i), "")
+		if !idRe.MatchString(name) || name == "nil" || name == "true" || name == "false" || name == "in" || name == "and" || name == "or" || name == "contains" {
+			return
+		}
+		for _, other := range []string{strings.TrimRight(name, "?-"), name + "b", "a" + name} {
+			if other == name || !idRe.MatchString(other) {
+				continue
+			}
+			for _, form := range []struct{ src, want string }{
+				{"{% assign " + other + " = 'OTHER' %}{% capture " + name + " %}CAP{% endcapture %}[{{ " + name + " }}|{{ " + other + " }}]", "[CAP|OTHER]"},
+				{"{% assign " + other + " = 'OTHER' %}{% assign " + name + " = 'ASG' %}[{{ " + name + " }}|{{ " + other + " }}]", "[ASG|OTHER]"},
+				{"{% for " + name + " in (1..2) %}{{ " + name + " }}{% endfor %}[{{ " + name + " }}]", "12[]"},
+				{"{% capture " + name + " %}A{% endcapture %}{% capture " + name + " %}{{ " + name + " }}B{% endcapture %}{{ " + name + " | append: '!' }}", "AB!"},
+			} {
+				r.Eval()
+				r.Transition()
+				o := Render(c12.eng, form.src, map[string]any{})
+				if o.Panic != nil || o.Err != nil || o.Out != form.want {
+					r.Violation("wrong:variable-name", map[string]any{"template": form.src, "name": name}, form.want, o.String())
+				}
+			}
+		}
+		r.Trace()
+		r.Class("names/" + strconv.Itoa(len(name)))
+	}})
 	// capture equivalence for fragments of other generators (loops with modifiers, conditionals, trim-free objects)
 	frags := []string{
 		"{% for x in (1..3) reversed limit: 2 %}" + c11Trace + "{% else %}E{% endfor %}",
@@ -298,7 +328,7 @@ func init() {
 		ID:    "C12",
 		Level: "model_checking",
 		Rule: "all programs of <=4 (quick) / <=5 (thorough) statements (block bodies count) over {assign x=1, assign x=2, assign y=x, include, assign forloop='mine', capture x, for x (shadowing), for i with break, for forloop, tablerow x, if true, if false}, a probe reading x, y, i and forloop.index after every statement and at the start of every body, " +
-			"each with x,y initially unbound and bound; oracle = reference interpreter with one flat store and save/restore of loop variable and forloop; plus the capture-equivalence law on every program and on fragment pairs from other generators; " +
+			"each with x,y initially unbound and bound; oracle = reference interpreter with one flat store and save/restore of loop variable and forloop; every legal identifier of <=3 symbols over {a,b,_,1,-,?} as assign/capture/loop variable; plus the capture-equivalence law on every program and on fragment pairs from other generators; " +
 			"state = reference store after the program; transition = one program rendered",
 		Assumptions: []string{
 			"whether assignments made inside an included file are visible to the includer afterwards is not stated; the included file assigns only z, which the includer never reads",
